@@ -564,13 +564,14 @@ class Array(Node):
         """
         # get data
         dset = group['data']
-        data = dset[:]
+        data = dset[...]
         units = dset.attrs['units']
         rank = len(data.shape)
 
         # determine if this is a stack array
-        last_dim = group[f"dim{rank-1}"]
-        if last_dim.attrs['name'] == '_labels_':
+        # (0-dimensional data has no dim vectors at all)
+        last_dim = group[f"dim{rank-1}"] if rank > 0 else None
+        if last_dim is not None and last_dim.attrs['name'] == '_labels_':
             is_stack = True
             normal_dims = rank-1
         else:
